@@ -11,6 +11,10 @@ CLAIMED = {
     text='Bounded symbolic model checking of the real code: eval::builtin name lookup and builtin::{floor,ceil,round} (with Rational::{floor,ceil,round}) are executed from BOTH the dev and the release MIR of /repo on an unbounded symbolic rational (integer part unbounded, fraction symbolic), every digits argument in the bound as its own job, every argument count 0..3; the result is proved equal (z3 unsat of the negation) to the mathematical definition stated without floor functions; panics (debug assertions) are reachable-panic queries; models are replayed on the native dev and release builds.',
     note='Trusted: MIR dump, mirsym + models (num Ratio::{floor,ceil,round,trunc} as exact integer-part arithmetic on a k+f decomposition, Vec/Option plumbing), z3. Outside: |digits| beyond the bound, sin/cos.',
     design='§5 C10', technique='symbolic execution of rustc MIR (dev+release) + z3 linear real/integer arithmetic, replay on native builds'),
+ 'C02': dict(
+    text='Bounded symbolic model checking of the real code: eval::add, eval::sub and Compound::factor (with base_units, Unit::powers, every DerivedVtable.powers closure reached through the real statics, Powers::insert/get/len/iter) are executed from MIR on two compounds whose units are concrete per job (all 1-vs-1 pairs of the whole vocabulary found in the MIR, 2-vs-1 and 2-vs-2 over a 14-unit basis) and whose powers are solver variables in [-3,3]; on every path z3 proves accepted <=> equal base dimensions (reference dimension table written from the SI brochure) as a formula over the powers, so cancelling spellings are found by the solver; per unit Unit::powers(u,p) = p*dim_ref(u) for symbolic p; unit-less operands adopt the other unit in both orders. Counterexamples are replayed as queries on the native dev and release builds.',
+    note='Trusted: MIR dump, mirsym + models (BTreeMap as association list ordered by the crate\'s own Ord for Unit run from MIR; num as Int/Real), spec/units.py, z3. Outside: >2 entries per side, offset units (C09), prefixes (C03).',
+    design='§5 C02', technique='symbolic execution of rustc MIR + z3 linear integer arithmetic over symbolic unit powers, replay on native builds'),
 }
 NOT_YET = {}
 NA = {
